@@ -121,7 +121,8 @@ def gen_acts(rng, rs, cfg, nacts=80, p_act=0.35, kinds=None, small_buffers=True)
                 ops.append('begin:%d' % rng.randrange(nsc))
             ops.append('reject')
         elif kind == 'less':
-            ops.append('less:%d' % rng.randrange(0, 8))
+            # (less3: the same, done by section-3 code — the skeleton defines yyless() a second time for it)
+            ops.append('%s:%d' % ('less3' if rng.random() < 0.3 else 'less', rng.randrange(0, 8)))
             if cfg.yymore and not cfg.array and rng.random() < 0.2:
                 ops.append('more')
         elif kind == 'more':
